@@ -31,50 +31,71 @@ func makeBoxes(tier string) []*Box {
 		}
 		return q
 	}
-	core := kinds(evCampaign, evPropose, evHeartbeat, evCrash, evRestart, evCompact)
 	var bs []*Box
+	// ---- Box A: every interleaving, tiny budgets
 	bs = append(bs, &Box{
 		ID: "A1", Mode: "A", What: "every interleaving of up to two elections and one replication round with one message loss",
 		Cfg:   cfgPlain(3, false),
 		Bud:   Budget{MaxTerm: 3, Proposals: 1, Drops: 1},
-		Depth: pick(9, 11), Kinds: kinds(evCampaign, evPropose), Share: pick(12, 30),
+		Depth: pick(10, 13), Kinds: kinds(evCampaign, evPropose), Share: pick(10, 12),
 	})
 	bs = append(bs, &Box{
-		ID: "A2", Mode: "A", What: "same with PreVote+CheckQuorum: pre-vote rounds, leases, quorum checks on ticks",
+		ID: "A2", Mode: "A", What: "same with PreVote+CheckQuorum: pre-vote rounds, leases and their expiry, quorum checks on leader ticks",
 		Cfg:   cfgPVCQ(3, false),
 		Bud:   Budget{MaxTerm: 3, Proposals: 1, Drops: 1, Heartbeats: 2, Expires: 2},
-		Depth: pick(8, 10), Kinds: kinds(evCampaign, evPropose, evHeartbeat, evExpire), Share: pick(10, 20),
+		Depth: pick(9, 11), Kinds: kinds(evCampaign, evPropose, evHeartbeat, evExpire), Share: pick(8, 10),
 	})
+	// ---- Box B: deep runs, FIFO delivery by default, bounded number of deviations
 	bs = append(bs, &Box{
-		ID: "B1", Mode: "B", What: "deep runs: elections, proposals, heartbeats, crash/restart, compaction + snapshot transfer",
+		ID: "B2", Mode: "B", What: "elections, proposals, crash and restart from persisted state; loss, duplication, reordering, untimely campaign/propose/crash as deviations",
 		Cfg:   cfgPlain(3, false),
-		Bud:   Budget{MaxTerm: uint64(pick(4, 5)), Proposals: pick(2, 3), Drops: 9, Dups: 9, Crashes: pick(1, 2), Heartbeats: pick(1, 2), Compacts: 1},
-		Depth: 400, MaxDev: pick(1, 2), Kinds: core, Share: pick(20, 50),
+		Bud:   Budget{MaxTerm: 4, Proposals: pick(1, 2), Drops: 9, Dups: 9, Crashes: 1, Heartbeats: pick(0, 1)},
+		Depth: 400, MaxDev: pick(1, 2), Kinds: kinds(evCampaign, evPropose, evHeartbeat, evCrash, evRestart), Share: pick(14, 18),
 	})
 	bs = append(bs, &Box{
-		ID: "B2", Mode: "B", What: "membership changes: add node 4 (voter / learner then promote), remove node 3, joint consensus with implicit and explicit leave, leadership transfer",
+		ID: "B3", Mode: "B", What: "log compaction at the applied index and snapshot transfer to lagging / restarted followers",
+		Cfg:   cfgPlain(3, false),
+		Bud:   Budget{MaxTerm: 3, Proposals: pick(1, 2), Drops: 9, Dups: 9, Crashes: 1, Compacts: pick(1, 2)},
+		Depth: 400, MaxDev: pick(1, 2), Kinds: kinds(evCampaign, evPropose, evCrash, evRestart, evCompact), Share: pick(12, 12),
+	})
+	bs = append(bs, &Box{
+		ID: "B4", Mode: "B", What: "membership changes: add node 4 as voter or as learner then promote, remove node 3 (also while it leads), joint consensus with automatic and explicit leave",
 		Cfg:   cfgPlain(3, true),
-		Bud:   Budget{MaxTerm: uint64(pick(3, 4)), Proposals: 1, Drops: 9, Dups: 9, Crashes: pick(0, 1), ConfChanges: 2, Transfers: 1, Compacts: 1},
-		Depth: 400, MaxDev: pick(1, 2), Kinds: kinds(evCampaign, evPropose, evCrash, evRestart, evCompact, evConf, evTransfer), Share: pick(15, 40),
+		Bud:   Budget{MaxTerm: 3, Proposals: pick(0, 1), Drops: 9, Dups: 9, ConfChanges: 2, Crashes: pick(0, 1)},
+		Depth: 400, MaxDev: pick(1, 2), Kinds: kinds(evCampaign, evPropose, evConf, evCrash, evRestart), Share: pick(10, 14),
 	})
 	bs = append(bs, &Box{
-		ID: "B3", Mode: "B", What: "one entry per MsgApp (MaxSizePerMsg=0): entries of earlier terms are acknowledged separately from the leader's own (Figure-8 family), many crashes",
-		Cfg:   cfgOnePerMsg(3, false),
-		Bud:   Budget{MaxTerm: 5, Proposals: 1, Drops: 9, Dups: 0, Crashes: pick(3, 5)},
-		Depth: 400, MaxDev: pick(1, 2), Kinds: kinds(evCampaign, evPropose, evCrash, evRestart), Share: pick(15, 50),
-	})
-	bs = append(bs, &Box{
-		ID: "B4", Mode: "B", What: "PreVote+CheckQuorum deep runs: lease expiry, quorum-check step-down, crash/restart",
+		ID: "B5", Mode: "B", What: "PreVote+CheckQuorum deep runs: lease expiry, quorum-check step-down, crash/restart",
 		Cfg:   cfgPVCQ(3, false),
-		Bud:   Budget{MaxTerm: 4, Proposals: pick(1, 2), Drops: 9, Dups: 9, Crashes: 1, Heartbeats: pick(2, 3), Expires: pick(2, 3)},
-		Depth: 400, MaxDev: pick(1, 2), Kinds: kinds(evCampaign, evPropose, evHeartbeat, evCrash, evRestart, evExpire), Share: pick(10, 30),
+		Bud:   Budget{MaxTerm: 3, Proposals: 1, Drops: 9, Dups: 9, Crashes: pick(0, 1), Heartbeats: 2, Expires: pick(1, 2)},
+		Depth: 400, MaxDev: pick(1, 2), Kinds: kinds(evCampaign, evPropose, evHeartbeat, evCrash, evRestart, evExpire), Share: pick(12, 10),
+	})
+	bs = append(bs, &Box{
+		ID: "B6", Mode: "B", What: "leadership transfer (MsgTimeoutNow, forced campaign) interleaved with elections and proposals",
+		Cfg:   cfgPlain(3, false),
+		Bud:   Budget{MaxTerm: 4, Proposals: 1, Drops: 9, Dups: 9, Transfers: pick(1, 2)},
+		Depth: 400, MaxDev: pick(1, 2), Kinds: kinds(evCampaign, evPropose, evTransfer), Share: pick(4, 5),
+	})
+	// B1 runs after the cheaper boxes so that it inherits whatever time they left
+	bs = append(bs, &Box{
+		ID: "B1", Mode: "B", What: "network partitions with one entry per MsgApp (MaxSizePerMsg=0): leaders cut off right after election or after appending, stale leaders, entries of earlier terms acknowledged separately from the leader's own (Figure-8 family)",
+		Cfg:   cfgOnePerMsg(3, false),
+		Bud:   Budget{MaxTerm: 4, Proposals: 1, Drops: pick(0, 9)},
+		Depth: 400, MaxDev: pick(1, 2), Kinds: kinds(evCampaign, evPropose, evIsolate), Devs: kinds(evIsolate, evDrop), LeaderPropose: true,
+		Share: pick(24, 22),
 	})
 	if thorough {
 		bs = append(bs, &Box{
-			ID: "B5", Mode: "B", What: "five members",
+			ID: "B7", Mode: "B", What: "crash-heavy runs with one entry per MsgApp: up to three crashes, restarts from persisted state",
+			Cfg:   cfgOnePerMsg(3, false),
+			Bud:   Budget{MaxTerm: 5, Proposals: 1, Drops: 9, Crashes: 3},
+			Depth: 400, MaxDev: 1, Kinds: kinds(evCampaign, evPropose, evCrash, evRestart), Devs: kinds(evDrop, evCrash, evDeliver), Share: 10,
+		})
+		bs = append(bs, &Box{
+			ID: "B8", Mode: "B", What: "five members",
 			Cfg:   cfgPlain(5, false),
-			Bud:   Budget{MaxTerm: 4, Proposals: 1, Drops: 9, Dups: 9, Crashes: 2, Heartbeats: 1},
-			Depth: 400, MaxDev: 2, Kinds: kinds(evCampaign, evPropose, evHeartbeat, evCrash, evRestart), Share: 40,
+			Bud:   Budget{MaxTerm: 3, Proposals: 1, Drops: 9, Dups: 9, Crashes: 1},
+			Depth: 400, MaxDev: 2, Kinds: kinds(evCampaign, evPropose, evCrash, evRestart), Share: 8,
 		})
 	}
 	if tj := os.Getenv("RAFTMC_TRIAL"); tj != "" {
